@@ -427,30 +427,49 @@ def libSort (r : Rec N) (v : Val N) (swap : Option (Val N)) : EvalM N (Option (V
       | none, none => libErr "sort"
   | v => pure (some (.arr [v]))
 
-/-- jlib.Keys: distinct member names, first occurrence first -/
-partial def keysOf : Val N → List String
-  | .obj kvs => kvs.map (·.1)
-  | .arr xs => (xs.flatMap keysOf).eraseDups
-  | _ => []
+/-- first occurrences only -/
+def dedupStr : List String → List String → List String
+  | [], _ => []
+  | k :: ks, seen => if seen.contains k then dedupStr ks seen else k :: dedupStr ks (k :: seen)
 
-/-- jlib.Spread -/
-partial def spreadOf : Val N → Option (Val N) ⊕ List (Val N)
-  | .obj kvs => .inr (kvs.map fun p => .obj [p])
-  | .arr xs => .inr (xs.flatMap fun x => match spreadOf x with
-      | .inr l => l
-      | .inl (some v) => [v]
-      | .inl none => [])
+mutual
+/-- jlib.Keys: distinct member names, first occurrence first -/
+def keysOf : Val N → List String
+  | .obj kvs => kvs.map (·.1)
+  | .arr xs => dedupStr (keysOfL xs) []
+  | _ => []
+def keysOfL : List (Val N) → List String
+  | [] => []
+  | x :: xs => keysOf x ++ keysOfL xs
+end
+
+mutual
+/-- jlib.Spread: one single-member object per member; arrays are spread member-wise -/
+def spreadItems : Val N → List (Val N)
+  | .obj kvs => kvs.map fun p => .obj [p]
+  | .arr xs => spreadItemsL xs
+  | v => [v]
+def spreadItemsL : List (Val N) → List (Val N)
+  | [] => []
+  | x :: xs => spreadItems x ++ spreadItemsL xs
+end
+
+def spreadOf : Val N → Option (Val N) ⊕ List (Val N)
+  | .obj kvs => .inr (spreadItems (.obj kvs))
+  | .arr xs => .inr (spreadItems (.arr xs))
   | v => .inl (some v)
+
+/-- jlib mergeMap: the members of one object written into the accumulator (later wins) -/
+def mergeInto (acc : List (String × Val N)) : Val N → List (String × Val N)
+  | .obj kvs => kvs.foldl (fun a p => objSet a p.1 p.2) acc
+  | _ => acc
 
 /-- jlib.Merge -/
 def libMerge (v : Val N) : Except Err (Option (Val N)) :=
   match v with
   | .obj kvs => .ok (some (.obj kvs))
   | .arr xs =>
-    if xs.all Val.isObj then
-      .ok (some (.obj (xs.foldl (fun acc x => match x with
-        | .obj kvs => kvs.foldl (fun a p => objSet a p.1 p.2) acc
-        | _ => acc) [])))
+    if xs.all Val.isObj then .ok (some (.obj (xs.foldl mergeInto [])))
     else .error (.lib "merge")
   | _ => .error (.lib "merge")
 
